@@ -5,6 +5,18 @@ CHECKS = [
         "text": "Every type of the bounded grammar (all ctor/shape pairs, nesting 2) x every datum at <=2 deviations from a valid skeleton x option vectors is executed on the real deserialize and compared (verdict and typed image with runtime classes) with an independent reference model of the documented data model; exhaustive within the stated bounds, nothing sampled.",
         "note": "Trusted: the reference model (vf/refmodel/deser.py, written from the docs, no code shared with apischema); cases the docs do not decide are excluded and counted. Bounds: nesting depth 2, <=2 deviations, atom pools listed in evidence.",
     },
+    {
+        "id": "C02", "engine": "E1", "design_ref": "DESIGN.md §5 C02",
+        "technique": "bounded exhaustive enumeration of rejected (type, options, datum with <=3 independent deviations) against a reference error model + compositional self-check + cross-interpreter digest",
+        "text": "Every rejected datum of the C01 space (k<=2, k<=3 at level<=1 in thorough) is executed; the multiset of (loc, message) is compared with the reference model, list order, from_errors round trip and the compositional law errors(parent)|child == errors(child) are checked on the real code, under the default and a fully customised settings.errors catalogue; a digest of all error lists is compared between two interpreters with different hash seeds.",
+        "note": "Trusted: reference error model (vf/refmodel/deser.py). Message order inside one location is compared as a multiset (the by-type shortcut legitimately orders them differently). An item whose key and value are both invalid is excluded.",
+    },
+    {
+        "id": "C03", "engine": "E1", "design_ref": "DESIGN.md §5 C03",
+        "technique": "bounded exhaustive enumeration: every wild atom substituted at every position of every skeleton x 16 option vectors; crash / purity oracle",
+        "text": "For every type of the grammar, every skeleton datum and every single substitution of 51 wild / JSON atoms at every position is deserialized under coerce x additional_properties x fall_back_on_default x no_copy; any exception other than ValidationError, a non-computable or non-JSON-serialisable .errors, a modified input (structure and container identities) or modified user classes is a violation; 50/400/900-deep data for recursive shapes.",
+        "note": "Bounds: one wild substitution per datum, nesting 2; recursion limit 1000. Known finding: RecursionError on 400/900-deep data of recursive types (listed in known_findings.json).",
+    },
 ]
 _PENDING = "check not built yet in this round (planned, see DESIGN.md §5); not claimed until it runs green"
-NOT_APPLICABLE = [{"property_id": f"C{i:02d}", "reason": _PENDING} for i in range(2, 21)]
+NOT_APPLICABLE = [{"property_id": f"C{i:02d}", "reason": _PENDING} for i in range(4, 21)]
